@@ -107,6 +107,59 @@ func neutralSites(repo string) {
 					})
 					return ok
 				}
+				// local-rename: every parameter, named result, receiver and local variable of the function gets another name
+				// (one variant per function; all references follow through types.Info)
+				{
+					type ed struct {
+						off, n int
+						s      string
+					}
+					var eds []ed
+					objs := map[types.Object]bool{}
+					ast.Inspect(fd, func(n ast.Node) bool {
+						if id, ok := n.(*ast.Ident); ok {
+							if obj, isDef := pkg.TypesInfo.Defs[id]; isDef && obj != nil {
+								if v, isV := obj.(*types.Var); isV && !v.IsField() && id.Name != "_" && v.Parent() != pkg.Types.Scope() {
+									objs[obj] = true
+								}
+							}
+						}
+						return true
+					})
+					ast.Inspect(fd, func(n ast.Node) bool {
+						if id, ok := n.(*ast.Ident); ok {
+							obj := pkg.TypesInfo.Defs[id]
+							if obj == nil {
+								obj = pkg.TypesInfo.Uses[id]
+							}
+							if obj != nil && objs[obj] {
+								eds = append(eds, ed{off(id.Pos()), len(id.Name), id.Name + "Zz"})
+							}
+						}
+						return true
+					})
+					if len(eds) > 0 {
+						start, end := off(fd.Pos()), off(fd.End())
+						buf := append([]byte{}, src[start:end]...)
+						for i := 0; i < len(eds); i++ {
+							for j := i + 1; j < len(eds); j++ {
+								if eds[j].off > eds[i].off {
+									eds[i], eds[j] = eds[j], eds[i]
+								}
+							}
+						}
+						last := -1
+						for _, e := range eds {
+							if e.off == last {
+								continue
+							}
+							last = e.off
+							o := e.off - start
+							buf = append(buf[:o], append([]byte(e.s), buf[o+e.n:]...)...)
+						}
+						enc.Encode(nEdit{File: rel, Line: prog.Fset.Position(fd.Pos()).Line, Func: name, Op: "local-rename", Start: start, End: end, Old: fd.Name.Name, New: string(buf)})
+					}
+				}
 				ast.Inspect(fd.Body, func(n ast.Node) bool {
 					switch x := n.(type) {
 					case *ast.RangeStmt:
